@@ -5,6 +5,7 @@ go 1.23.0
 require (
 	github.com/consensys/gnark v0.0.0
 	github.com/consensys/gnark-crypto v0.17.1-0.20250415081852-c838dcdfa844
+	golang.org/x/crypto v0.35.0
 	golang.org/x/tools v0.29.0
 )
 
@@ -23,7 +24,6 @@ require (
 	github.com/rs/zerolog v1.33.0 // indirect
 	github.com/stretchr/testify v1.10.0 // indirect
 	github.com/x448/float16 v0.8.4 // indirect
-	golang.org/x/crypto v0.35.0 // indirect
 	golang.org/x/exp v0.0.0-20240823005443-9b4947da3948 // indirect
 	golang.org/x/mod v0.22.0 // indirect
 	golang.org/x/sync v0.11.0 // indirect
